@@ -27,50 +27,7 @@ import gen_sigs
 assert os.path.abspath(mpilot.__file__).startswith(os.path.abspath(os.environ["VERIF_SNAP"])), mpilot.__file__
 
 
-def printable(s):
-    return all(32 <= ord(c) < 127 for c in s)
-
-
-def c_fnum(x):
-    if math.isnan(x):
-        return "FNaN"
-    if math.isinf(x):
-        return "FInf" if x > 0 else "FNInf"
-    return "(FFin %s)" % cQ(Fr(x))
-
-
-def c_raw(v):
-    if isinstance(v, bool):
-        return "(RBool %s)" % cbool(v)
-    if isinstance(v, int):
-        return "(RInt %s)" % cZ(v)
-    if isinstance(v, float):
-        return "(RFloat %s %s)" % (c_fnum(v), cstr(str(v)))
-    if isinstance(v, str):
-        if not printable(v):
-            raise ValueError("unprintable")
-        try:
-            i = cZ(int(v))
-        except ValueError:
-            i = None
-        try:
-            f = c_fnum(float(v))
-        except ValueError:
-            f = None
-        return "(RStr %s %s %s)" % (cstr(v), copt(i), copt(f))
-    if isinstance(v, (list, tuple)):
-        return "(RList %s)" % clist([c_raw(x) for x in v])
-    if isinstance(v, dict):
-        return "(RDict %s)" % clist(["(%s, %s)" % (cstr(str(k)), c_raw(x)) for k, x in v.items()])
-    if isinstance(v, Command):
-        return "(RCmd %s)" % cstr(v.result_name)
-    if isinstance(v, type):
-        return "(RType %s)" % cstr(gen_sigs.tyname(v))
-    if isinstance(v, numpy.ndarray):
-        return "RData"
-    if v is None:
-        return "RNone"
-    raise ValueError("unprintable %r" % type(v))
+from c20_driver_lib import printable, c_fnum, c_raw  # noqa: E402
 
 
 ERR = {"ParameterNotValid": '(EParameterNotValid "")', "PathDoesNotExist": "EPathDoesNotExist", "InvalidRelativePath": "EInvalidRelativePath"}
